@@ -26,6 +26,80 @@ fn seed_ops() -> Vec<Vec<Vec<u8>>> {
     v
 }
 
+/// every command name the script-side executor dispatches (src/storage/commands/executor.rs), read from
+/// /repo's current source: SETBIT / GETBIT / BITCOUNT ... exist there only
+fn executor_names() -> Vec<String> {
+    let repo = std::env::var("VERIF_REPO").unwrap_or("/repo".to_string());
+    let src = std::fs::read_to_string(format!("{}/src/storage/commands/executor.rs", repo)).unwrap_or_default();
+    let mut names: Vec<String> = vec![];
+    let mut p = 0;
+    while let Some(q) = src[p..].find('"') {
+        let st = p + q + 1;
+        if let Some(e) = src[st..].find('"') {
+            let w = &src[st..st + e];
+            let after = src[st + e + 1..].trim_start();
+            if w.len() >= 3 && w.chars().all(|c| c.is_ascii_uppercase()) && (after.starts_with("=>") || after.starts_with('|'))
+                && !names.contains(&w.to_string()) { names.push(w.to_string()); }
+            p = st + e + 1;
+        } else { break; }
+    }
+    names
+}
+
+/// the same kind of probe sent through a script: EVAL "return redis.pcall(unpack(ARGV))" 0 name args.. -
+/// the command runs in the executor, a second implementation of every command
+fn gen_script_probe(r: &mut Rng, names: &[String]) -> V {
+    let name = r.pick(names).clone();
+    let n = r.below(5) as usize;
+    let mut args = vec![V::Bulk(b"EVAL".to_vec()), V::Bulk(if r.chance(1, 2) { b"return redis.pcall(unpack(ARGV))".to_vec() } else { b"return redis.call(unpack(ARGV))".to_vec() }),
+                        V::Bulk(b"0".to_vec()), V::Bulk(name.into_bytes())];
+    for _ in 0..n {
+        args.push(match r.below(20) {
+            0..=7 => V::Bulk(r.pick(KEYS).to_vec()),
+            8..=16 => V::Bulk(r.pick(NUMS).to_vec()),
+            _ => V::Bulk(r.pick(WORDS).to_vec()),
+        });
+    }
+    V::Array(args)
+}
+
+/// scripts whose return value or own behaviour is hostile to the conversion code (never: a script that
+/// does not end - open class script-never-ends)
+const HOSTILE_SCRIPTS: &[&str] = &[
+    "local t={} t[1]=t return t",
+    "local t={} for i=1,100000 do t={t} end return t",
+    "local t={} for i=1,200 do t={t} end return t",
+    "return setmetatable({}, {__index=function() return 1 end})",
+    "return setmetatable({1,2,3}, {__len=function() return 1e9 end, __index=function(t,k) return k end})",
+    "local t={} t.a=t return {t, t, {t}}",
+    "return string.rep('x', 2^31)",
+    "return {string.rep('x', 2^20), string.rep('y', 2^20)}",
+    "local t={} for i=1,2000000 do t[i]=i end return t",
+    "return {1, nil, 3, {nil, {nil}}, false, true, 1e400, -1e400, 0/0, 2^63, -2^63, 2^53+1}",
+    "return redis.call('SETBIT', KEYS[1], '18446744073709551615', '1')",
+    "return redis.call('SETBIT', KEYS[1], '40000000000000', '1')",
+    "return redis.call('GETBIT', KEYS[1], '18446744073709551615')",
+    "return redis.call('BITCOUNT', KEYS[2])",
+    "return redis.call('BITCOUNT', KEYS[1], '5', '2')",
+    "return redis.call('BITCOUNT', KEYS[1], '-9223372036854775808', '9223372036854775807')",
+    "return redis.error_reply(string.rep('e', 2^20))",
+    "return redis.status_reply(nil)",
+    "error({})",
+    "error(setmetatable({}, {__tostring=function() error('again') end}))",
+    "return redis.call()",
+    "return redis.call({})",
+    "return redis.call('GET', {})",
+    "return redis.pcall('EVAL', 'return 1', '0')",
+    "local function f() return 1 + f() end return f()",
+    "return tostring(redis)",
+    "return loadstring('\\27Lua\\81\\0\\1\\4\\8\\4\\8\\0\\0\\0\\0\\0\\0\\0\\0\\64')",
+    "return loadstring('return 1')()",
+    "return select('#', unpack({}, 1, 1e7))",
+];
+fn script_probe(k: usize) -> V {
+    V::Array(vec![V::Bulk(b"EVAL".to_vec()), V::Bulk(HOSTILE_SCRIPTS[k % HOSTILE_SCRIPTS.len()].as_bytes().to_vec()), V::Bulk(b"2".to_vec()), V::Bulk(b"s".to_vec()), V::Bulk(b"empty".to_vec())])
+}
+
 fn gen_probe(r: &mut Rng, names: &[String]) -> V {
     let name = r.pick(names).clone();
     let n = r.below(6) as usize;
@@ -42,10 +116,13 @@ fn gen_probe(r: &mut Rng, names: &[String]) -> V {
     V::Array(args)
 }
 
-const HOSTILE_KINDS: u64 = 16;
+const HOSTILE_KINDS: u64 = 18;
 fn hostile_bytes(r: &mut Rng) -> Vec<u8> { let k = r.below(HOSTILE_KINDS); hostile_kind(r, k) }
 fn hostile_kind(r: &mut Rng, kind: u64) -> Vec<u8> {
     match kind {
+        // declared lengths within a few dozen of 2^64: `header + length + 2` must not overflow
+        16 => { let l = u64::MAX - r.below(30); let t = *r.pick(b"$*%~"); let mut v = b"*2\r\n$4\r\nECHO\r\n".to_vec(); v.push(t); v.extend_from_slice(format!("{}", l).as_bytes()); v.extend_from_slice(b"\r\n"); v }
+        17 => { let l = u64::MAX - 1; let mut v = vec![b'$']; v.extend_from_slice(format!("{}", l).as_bytes()); v.extend_from_slice(b"\r\nab\r\n"); v }
         0 => b"*9223372036854775807\r\n".to_vec(),
         1 => b"%18446744073709551615\r\n".to_vec(),
         2 => b"~99999999999\r\n".to_vec(),
@@ -74,10 +151,50 @@ pub fn gen(seed: u64, n: usize, _tier: &str) -> Vec<Case> {
     let per = 40;
     // every hostile family once, whatever the seed
     cases.push(Case { id: "hostile-all".to_string(), ops: (0..HOSTILE_KINDS).map(|k| vec![b("PROBERAW"), bv(&hostile_kind(&mut r, k))]).collect(), outs: vec![] });
+    // life cycles: a key of each type is filled and emptied again, at several sizes and by every emptying
+    // command - the bookkeeping beside the data (per-stream memory counters, lengths, the deadline index)
+    // is decremented as often as it was incremented
+    {
+        let w = |args: &[&[u8]], out: &mut Vec<u8>| { V::cmd(args).wire(out); };
+        let mut ops = vec![];
+        for n in [1usize, 3, 4, 5, 8, 50, 300] {
+            let nb = format!("{}", n); let half = format!("{}", n / 2);
+            // streams with generated and with explicit IDs
+            for auto in [true, false] {
+                for how in 0..4 {
+                    let mut d = vec![];
+                    for k in 0..n { let id = format!("{}-1", k + 1); w(&[b"XADD", b"lc", if auto { b"*" } else { id.as_bytes() }, b"field", b"value"], &mut d); }
+                    match how {
+                        0 => w(&[b"XTRIM", b"lc", b"MAXLEN", b"0"], &mut d),
+                        1 => { w(&[b"XTRIM", b"lc", b"MAXLEN", half.as_bytes()], &mut d); w(&[b"XTRIM", b"lc", b"MAXLEN", b"1"], &mut d); w(&[b"XTRIM", b"lc", b"MAXLEN", b"0"], &mut d); }
+                        2 => w(&[b"XTRIM", b"lc", b"MINID", b"18446744073709551615-18446744073709551615"], &mut d),
+                        _ => { for k in 0..n { let id = format!("{}-1", k + 1); w(&[b"XDEL", b"lc", id.as_bytes()], &mut d); } w(&[b"XTRIM", b"lc", b"MAXLEN", b"0"], &mut d); }
+                    }
+                    w(&[b"XADD", b"lc", b"*", b"f", b"v"], &mut d); w(&[b"XTRIM", b"lc", b"MAXLEN", b"0"], &mut d); w(&[b"XLEN", b"lc"], &mut d); w(&[b"DEL", b"lc"], &mut d);
+                    ops.push(vec![b("PROBERAW"), bv(&d)]);
+                }
+            }
+            // list, set, hash, sorted set: filled, emptied element by element and by range, filled again
+            let mut d = vec![];
+            for k in 0..n { let e = format!("e{}", k); w(&[b"RPUSH", b"lcl", e.as_bytes()], &mut d); w(&[b"SADD", b"lcs", e.as_bytes()], &mut d); w(&[b"HSET", b"lch", e.as_bytes(), b"1"], &mut d); w(&[b"ZADD", b"lcz", nb.as_bytes(), e.as_bytes()], &mut d); }
+            for k in 0..n { let e = format!("e{}", k); w(&[b"LPOP", b"lcl"], &mut d); w(&[b"SREM", b"lcs", e.as_bytes()], &mut d); w(&[b"HDEL", b"lch", e.as_bytes()], &mut d); w(&[b"ZREM", b"lcz", e.as_bytes()], &mut d); }
+            for k in 0..n { let e = format!("e{}", k); w(&[b"LPUSH", b"lcl", e.as_bytes()], &mut d); w(&[b"ZADD", b"lcz", b"1", e.as_bytes()], &mut d); }
+            w(&[b"LTRIM", b"lcl", b"1", b"0"], &mut d); w(&[b"ZREMRANGEBYRANK", b"lcz", b"0", b"-1"], &mut d); w(&[b"SPOP", b"lcs", nb.as_bytes()], &mut d);
+            w(&[b"LLEN", b"lcl"], &mut d); w(&[b"ZCARD", b"lcz"], &mut d); w(&[b"DBSIZE"], &mut d);
+            ops.push(vec![b("PROBERAW"), bv(&d)]);
+        }
+        cases.push(Case { id: "lifecycles".to_string(), ops, outs: vec![] });
+    }
+    // every hostile script once, whatever the seed
+    cases.push(Case { id: "hostile-scripts".to_string(), ops: (0..HOSTILE_SCRIPTS.len()).map(|k| { let mut o = vec![b("PROBE")]; script_probe(k).enc(&mut o); o }).collect(), outs: vec![] });
+    let mut xnames: Vec<String> = executor_names().into_iter().filter(|x| !EXCLUDED.contains(&x.as_str())).collect();
+    if xnames.is_empty() { xnames = names.clone(); }
     for id in 0..(n / per).max(1) {
         let mut ops = vec![];
         for _ in 0..per {
             if r.chance(1, 6) { ops.push(vec![b("PROBERAW"), bv(&hostile_bytes(&mut r))]); }
+            else if r.chance(1, 4) { let mut o = vec![b("PROBE")]; gen_script_probe(&mut r, &xnames).enc(&mut o); ops.push(o); }
+            else if r.chance(1, 40) { let mut o = vec![b("PROBE")]; let k = r.below(HOSTILE_SCRIPTS.len() as u64) as usize; script_probe(k).enc(&mut o); ops.push(o); }
             else { let mut o = vec![b("PROBE")]; gen_probe(&mut r, &names).enc(&mut o); ops.push(o); }
         }
         cases.push(Case { id: format!("probe-{}", id), ops, outs: vec![] });
